@@ -193,6 +193,143 @@ theorem response_type_of_model (g : Glue) (m : In) (t : Nat)
     | _ => simp at h
   · simp [hb] at h
 
+/-! ## order-exact: every execution of an arm is one PATH of the regenerated statement walk -/
+
+/-- the regenerated paths, flattened: (arm, adapter calls in execution order with `?` marks, outcome) -/
+def flatPaths : List (String × List String × String) :=
+  consumePaths.flatMap fun e => e.2.map fun p => (e.1, p.2.1, p.2.2.2)
+
+/-- **`Protocol::consume` is order-exact**: for every peer state and every message whose adapter calls
+succeed, the adapter methods the model calls — in ORDER, with the `?` marks — and the outcome are exactly
+one path of the statement-by-statement walk of the arm in the current source (no prefix, no superset) -/
+theorem consume_is_a_path (g : Glue) (hb : g.banned = false) (m : In) (hok : ∀ f, m ≠ .txhashsetReq false f) :
+    (m.arm, (consumeGlue g m).2.1.map Call.tag, (consumeGlue g m).2.2.name) ∈ flatPaths := by
+  cases m with
+  | ping td h => simp only [consumeGlue, hb, Bool.false_eq_true, ↓reduceIte, In.arm, List.map, Call.tag, Call.fallible, Call.method, GOut.name]; decide
+  | pong td h => simp only [consumeGlue, hb, Bool.false_eq_true, ↓reduceIte, In.arm, List.map, Call.tag, Call.fallible, Call.method, GOut.name]; decide
+  | banReason => simp only [consumeGlue, hb, Bool.false_eq_true, ↓reduceIte, In.arm, List.map]; decide
+  | kernel h => simp only [consumeGlue, hb, Bool.false_eq_true, ↓reduceIte, In.arm, List.map, Call.tag, Call.fallible, Call.method]; decide
+  | tx k0 stem => cases stem <;> (simp only [consumeGlue, hb, Bool.false_eq_true, ↓reduceIte, In.arm, List.map, Call.tag, Call.fallible, Call.method]; decide)
+  | block h => simp only [consumeGlue, hb, Bool.false_eq_true, ↓reduceIte, In.arm, List.map, Call.tag, Call.fallible, Call.method]; decide
+  | cblock h => simp only [consumeGlue, hb, Bool.false_eq_true, ↓reduceIte, In.arm, List.map, Call.tag, Call.fallible, Call.method]; decide
+  | header h => simp only [consumeGlue, hb, Bool.false_eq_true, ↓reduceIte, In.arm, List.map, Call.tag, Call.fallible, Call.method]; decide
+  | getBlock h found => cases found <;> (simp only [consumeGlue, hb, Bool.false_eq_true, ↓reduceIte, In.arm, List.map, Call.tag, Call.fallible, Call.method]; decide)
+  | getCompactBlock h found => cases found <;> (simp only [consumeGlue, hb, Bool.false_eq_true, ↓reduceIte, In.arm, List.map, Call.tag, Call.fallible, Call.method]; decide)
+  | getTx h found => cases found <;> (simp only [consumeGlue, hb, Bool.false_eq_true, ↓reduceIte, In.arm, List.map, Call.tag, Call.fallible, Call.method]; decide)
+  | getPeerAddrs caps => simp only [consumeGlue, hb, Bool.false_eq_true, ↓reduceIte, In.arm, List.map, Call.tag, Call.fallible, Call.method]; decide
+  | getHeaders n => simp only [consumeGlue, hb, Bool.false_eq_true, ↓reduceIte, In.arm, List.map, Call.tag, Call.fallible, Call.method]; decide
+  | archive h bytes =>
+    cases hr : g.ready <;> cases hs : g.syncRequested <;>
+      (simp only [consumeGlue, hb, hr, hs, Bool.false_eq_true, ↓reduceIte, In.arm, List.map, Call.tag, Call.fallible, Call.method, Bool.not_false, Bool.not_true, GOut.name]; decide)
+  | attachment h size left =>
+    by_cases hl : left = 0
+    · simp only [consumeGlue, hb, hl, Bool.false_eq_true, ↓reduceIte, In.arm, List.map, Call.tag, Call.fallible, Call.method]; decide
+    · simp only [consumeGlue, hb, hl, Bool.false_eq_true, ↓reduceIte, In.arm, List.map, Call.tag, Call.fallible, Call.method]; decide
+  | headers n => simp only [consumeGlue, hb, Bool.false_eq_true, ↓reduceIte, In.arm, List.map, Call.tag, Call.fallible, Call.method]; decide
+  | peerAddrs n => simp only [consumeGlue, hb, Bool.false_eq_true, ↓reduceIte, In.arm, List.map, Call.tag, Call.fallible, Call.method]; decide
+  | txhashsetReq hdrOk found =>
+    cases hdrOk
+    · exact absurd rfl (hok found)
+    · cases found <;> (simp only [consumeGlue, hb, Bool.false_eq_true, ↓reduceIte, In.arm, List.map, Call.tag, Call.fallible, Call.method, Bool.not_true]; decide)
+  | getSegment k found =>
+    cases k <;> cases found <;>
+      (simp only [consumeGlue, hb, Bool.false_eq_true, ↓reduceIte, In.arm, List.map, Call.tag, Call.fallible, Call.method]; decide)
+  | segment k =>
+    cases k <;> (simp only [consumeGlue, hb, Bool.false_eq_true, ↓reduceIte, In.arm, List.map, Call.tag, Call.fallible, Call.method]; decide)
+
+/-- one (ready, requested, input) per path of the table, in table order -/
+def pathRepresentatives : List (Bool × Bool × In) :=
+  [(false, false, .attachment [] 0 0), (false, false, .attachment [] 1 1), (false, false, .ping 0 0), (false, false, .pong 0 0),
+   (false, false, .banReason), (false, false, .kernel []), (false, false, .getTx [] true), (false, false, .getTx [] false),
+   (false, false, .tx [] false), (false, false, .tx [] true), (false, false, .getBlock [] true), (false, false, .getBlock [] false),
+   (false, false, .block []), (false, false, .getCompactBlock [] true), (false, false, .getCompactBlock [] false),
+   (false, false, .cblock []), (false, false, .getHeaders 0), (false, false, .header []), (false, false, .headers 0),
+   (false, false, .getPeerAddrs 0), (false, false, .peerAddrs 0), (false, false, .txhashsetReq true true),
+   (false, false, .txhashsetReq true false), (false, false, .archive [] 0), (true, true, .archive [] 0),
+   (false, false, .getSegment .bitmap true), (false, false, .getSegment .bitmap false),
+   (false, false, .getSegment .output true), (false, false, .getSegment .output false),
+   (false, false, .getSegment .rangeproof true), (false, false, .getSegment .rangeproof false),
+   (false, false, .getSegment .kernel true), (false, false, .getSegment .kernel false),
+   (false, false, .segment .bitmap), (false, false, .segment .output), (false, false, .segment .rangeproof),
+   (false, false, .segment .kernel)]
+
+/-- **every path of the source is an execution of the model** (and the table has no other paths):
+the model, run on one representative per path, reproduces the regenerated table path by path -/
+theorem model_paths_are_the_table :
+    pathRepresentatives.map (fun r =>
+      let g : Glue := { Glue.new 1000 1000 0 ⟨[127, 0, 0, 1], 1⟩ 1 1 with ready := r.1, syncRequested := r.2.1 }
+      (r.2.2.arm, (consumeGlue g r.2.2).2.1.map Call.tag, (consumeGlue g r.2.2).2.2.name)) ++ [("Unknown", [], "None")] = flatPaths := by
+  decide
+
+/-! ## adapter errors -/
+
+/-- **an adapter error is swallowed**: whichever `?`-call fails, the handler stops right there (the calls
+made are the path up to and including the failing one), answers nothing, the error is `Error::Chain`,
+which `try_break!` tolerates (the connection stays), and the peer state is the one of the successful run
+(the `TrackingAdapter` remembers a hash BEFORE it hands the object to the adapter) -/
+theorem adapter_error_swallowed (g : Glue) (m : In) (f : String) (pre : List Call)
+    (h : truncAt f (consumeGlue g m).2.1 = some pre) :
+    consumeGlueF g m f = ((consumeGlue g m).1, pre, .chainErr) ∧ pre <+: (consumeGlue g m).2.1 ∧
+    (∃ c, pre.getLast? = some c ∧ c.fallible = true ∧ c.method = f) := by
+  refine ⟨by simp [consumeGlueF, h], ?_, ?_⟩
+  · generalize (consumeGlue g m).2.1 = cs at h
+    induction cs generalizing pre with
+    | nil => simp [truncAt] at h
+    | cons c r ih =>
+      simp only [truncAt] at h
+      split at h
+      · cases h; exact ⟨r, rfl⟩
+      · cases hr : truncAt f r with
+        | none => simp [hr] at h
+        | some p =>
+          simp [hr] at h; subst h
+          obtain ⟨t, ht⟩ := ih p hr
+          exact ⟨t, by simp [← ht]⟩
+  · generalize (consumeGlue g m).2.1 = cs at h
+    induction cs generalizing pre with
+    | nil => simp [truncAt] at h
+    | cons c r ih =>
+      simp only [truncAt] at h
+      split at h
+      · rename_i hc
+        cases h
+        simp only [Bool.and_eq_true, beq_iff_eq] at hc
+        exact ⟨c, rfl, hc.1, hc.2⟩
+      · cases hr : truncAt f r with
+        | none => simp [hr] at h
+        | some p =>
+          simp [hr] at h; subst h
+          obtain ⟨c', h1, h2, h3⟩ := ih p hr
+          refine ⟨c', ?_, h2, h3⟩
+          cases p with
+          | nil => simp at h1
+          | cons a t => simpa [List.getLast?_cons_cons] using h1
+
+/-- … and when no `?`-call of that method is on the path nothing changes -/
+theorem adapter_error_elsewhere (g : Glue) (m : In) (f : String) (h : truncAt f (consumeGlue g m).2.1 = none) :
+    consumeGlueF g m f = consumeGlue g m := by
+  simp [consumeGlueF, h]
+
+/-- the model's "no archive header" input IS the failure of `txhashset_archive_header` -/
+theorem no_archive_header_is_adapter_failure (g : Glue) (found : Bool) :
+    consumeGlue g (.txhashsetReq false found) = consumeGlueF g (.txhashsetReq true found) "txhashset_archive_header" := by
+  cases hb : g.banned <;> cases found <;> simp [consumeGlue, consumeGlueF, truncAt, hb, Call.fallible, Call.method]
+
+/-- **which errors are swallowed, which end the connection** (regenerated facts): every entry of a path is a `ChainAdapter` / `NetAdapter` method, and every `?` behind an
+adapter call is on a method returning `Result<_, chain::Error>`; `chain::Error` becomes `Error::Chain`,
+which `try_break!` tolerates; the other `?` points of the handler are `io::Error` (→ `Error::Connection`,
+tolerated only for the kinds `TimedOut` / `WouldBlock`) and `ser::Error` (→ `Error::Serialization`, never
+tolerated), and the explicit `return Err(Error::BadMessage)`: these end the connection -/
+theorem error_classes :
+    (∀ p ∈ flatPaths, ∀ c ∈ p.2.1, c ∈ adapterMethods ∨ c ∈ ["find_peer_addrs", "peer_addrs_received", "peer_difficulty"] ∨ c ∈ adapterResultMethods.map (· ++ "?")) ∧
+    ("chain::Error", "Chain") ∈ errorConversions ∧ "Chain" ∈ toleratedErrors ∧
+    ("io::Error", "Connection") ∈ errorConversions ∧ "Connection" ∉ toleratedErrors ∧
+    ("ser::Error", "Serialization") ∈ errorConversions ∧ "Serialization" ∉ toleratedErrors ∧
+    "BadMessage" ∉ toleratedErrors ∧ toleratedIoKinds = ["TimedOut", "WouldBlock"] ∧
+    (consumePaths.flatMap fun e => e.2.flatMap fun p => p.2.2.1).eraseDups = ["io:open", "ser:new", "io:metadata", "ser:into_segment"] := by
+  refine ⟨?_, by decide, by decide, by decide, by decide, by decide, by decide, by decide, by decide, by decide⟩
+  decide
+
 /-- **`decode_message` is the identity on names**, dispatches exactly the types the model dispatches and
 refuses exactly `Error`, `Hand`, `Shake`, `Headers` -/
 theorem decode_dispatch_is_identity :
@@ -281,6 +418,54 @@ theorem sender_effects (g : Glue) (o : Out) :
   | blockReq h o => exact ⟨_, _, _, rfl, by simp [sendGlue], by simp⟩
   | txhashsetReq => exact ⟨_, _, _, rfl, by simp [sendGlue], by simp [sendGlue]⟩
   | _ => exact ⟨_, _, _, rfl, by simp [sendGlue], by simp [sendGlue]⟩
+
+/-! ## the small decision functions of the handshake are the regenerated tables -/
+
+/-- what a branch condition of `Peer::is_denied` (as spelt in the source) means in the model -/
+def condHolds (deny allow : Option (List SockAddr)) (addr : SockAddr) (c : String) : Bool :=
+  if c = "let Some(ref denied) = config.peers_deny" then deny.isSome
+  else if c = "!(let Some(ref denied) = config.peers_deny)" then !deny.isSome
+  else if c = "denied.peers.contains(&peer_addr)" then (deny.map (addrsContain · addr)).getD false
+  else if c = "!(denied.peers.contains(&peer_addr))" then !(deny.map (addrsContain · addr)).getD false
+  else if c = "let Some(ref allowed) = config.peers_allow" then allow.isSome
+  else if c = "!(let Some(ref allowed) = config.peers_allow)" then !allow.isSome
+  else if c = "allowed.peers.contains(&peer_addr)" then (allow.map (addrsContain · addr)).getD false
+  else if c = "!(allowed.peers.contains(&peer_addr))" then !(allow.map (addrsContain · addr)).getD false
+  else false
+
+/-- the result of the first path all of whose conditions hold -/
+def evalPaths (holds : String → Bool) (paths : List (List String × Bool)) : Option Bool :=
+  (paths.find? fun p => p.1.all holds).map (·.2)
+
+/-- **`Peer::is_denied` of the model is the regenerated decision table**: for every configuration and
+address exactly one path of the source applies and its result is the model's -/
+theorem isDenied_is_the_table (deny allow : Option (List SockAddr)) (addr : SockAddr) :
+    evalPaths (condHolds deny allow addr) isDeniedPaths = some (isDenied deny allow addr) := by
+  cases deny with
+  | none =>
+    cases allow with
+    | none => simp [evalPaths, isDeniedPaths, condHolds, isDenied]
+    | some a => cases ha : addrsContain a addr <;> simp [evalPaths, isDeniedPaths, condHolds, isDenied, ha]
+  | some d =>
+    cases hd : addrsContain d addr
+    · cases allow with
+      | none => simp [evalPaths, isDeniedPaths, condHolds, isDenied, hd]
+      | some a => cases ha : addrsContain a addr <;> simp [evalPaths, isDeniedPaths, condHolds, isDenied, hd, ha]
+    · cases allow <;> simp [evalPaths, isDeniedPaths, condHolds, isDenied, hd]
+
+/-- the paths are exhaustive and exclusive by construction of the walk; here: 7 of them, 3 deny -/
+example : isDeniedPaths.length = 7 ∧ (isDeniedPaths.filter (·.2)).length = 3 := by decide
+
+/-- **`resolve_peer_addr` and `negotiate_protocol_version`**: the socket's ip with the ADVERTISED port (the
+advertised address when the socket does not know its peer); the lower of the two versions, applied to
+the version the Hand / the Shake announces -/
+theorem resolve_and_negotiate_are_the_table (port : Nat) (peer adv : SockAddr) (a b : Nat) :
+    resolveParts = [("port", "advertised.0.port()"), ("ok.ip", "addr.ip()"), ("ok.port", "port"), ("err", "advertised")] ∧
+    resolvePeerAddr adv.port (some peer) adv = { ip := peer.ip, port := adv.port } ∧
+    resolvePeerAddr port none adv = adv ∧
+    negotiateExpr = "std::cmp::min(self.protocol_version, other)" ∧ negotiate a b = min a b ∧
+    negotiateArgs = ["shake", "hand"] := by
+  refine ⟨by decide, ?_, ?_, by decide, rfl, by decide⟩ <;> simp [resolvePeerAddr]
 
 /-- the handshake timeouts as regenerated: 10 s to read the Hand / the Shake, 2 s to write them; both
 well above the codec's header timeout and installed before the first socket operation (generator
